@@ -47,6 +47,8 @@ func genC16(seed uint64, idx int, tier string) interface{} {
 	switch {
 	case r.Bool(0.03):
 		in = GenLongInput(ir, v)
+	case r.Bool(0.015): // one token beyond 32 KiB / 64 KiB: size-gated write paths
+		in = GenGiantTokenSized(ir, v, []int{33000, 40000, 66000, 80000}[r.Intn(4)]+r.Intn(3000))
 	case r.Bool(0.2):
 		in = GenTargetedInput(ir, rc, fresh, r.Range(2, 6))
 	case tier == "thorough" && r.Bool(0.3):
@@ -55,6 +57,10 @@ func genC16(seed uint64, idx int, tier string) interface{} {
 		in = GenInput(ir, v, 6)
 	}
 	rp := genChunks(r.Fork(3), len(in))
+	if len(in) > 16384 && len(rp.Chunks) > 64 {
+		// every fault position re-runs the whole schedule: keep it coarse for big inputs
+		rp.Chunks = []int{r.Range(1, 5000), r.Range(1, 40000)}
+	}
 	rp.Fault = nil
 	return &C16Plan{Property: "C16", RunSeed: rs, Idx: idx, Recipe: rc, Input: in, Read: rp}
 }
@@ -417,6 +423,9 @@ func runC16(planJSON []byte) (*RunResult, error) {
 	}
 	if len(pl.Input) > 4096 {
 		res.count("long_inputs", 1)
+	}
+	if len(pl.Input) > 32768 {
+		res.count("inputs_with_token_over_32KiB", 1)
 	}
 	res.Digest = digestBytes(dig.Bytes())
 	return res, nil
